@@ -356,6 +356,7 @@ def run(rep, facts, tier):
     rule_16_10(rep, fx)
     rule_16_11(rep, fx)
     rule_16_12(rep, fx)
+    rule_16_13(rep, fx)
 
     # ------------------------------------------------------------ R16.8 crossed roles (shared lint, rdv/swaplint.py)
     from rdv import swaplint
@@ -893,3 +894,69 @@ def _consts16(t):
                 rec(y)
     rec(t)
     return out
+
+
+def rule_16_13(rep, fx):
+    """The four primitives every protection kind rests on. R16.1 puts each success behind their Ok; this rule decides that their Ok means what it should."""
+    A_ = 'security::cryptographic::cryptographic_builtin::aes_gcm_gmac::'
+    rep.rule('R16.13', 'primitives: validate_mac(key, iv, data, mac) is Ok only on the success of ring\'s open_in_place(Aad::from(data), in_out) with in_out = exactly the MAC bytes, '
+                       'under the key made from `key` and the single nonce made from `iv`; decrypt(key, iv, ciphertext, mac) only on open_in_place(Aad::empty(), ciphertext ++ mac) '
+                       '(in this order) and returns that buffer cut to the plaintext length; compute_mac / encrypt are the mirror images (same AAD choice, same key and nonce '
+                       'construction), so that what the sender produces is what the receiver checks; the nonce sequence hands out self.iv once')
+    spec = {'validate_mac': ('open_in_place', 'from', ['arg4']), 'decrypt': ('open_in_place', 'empty', ['arg3', 'arg4']),
+            'compute_mac': ('seal_in_place_separate_tag', 'from', None), 'encrypt': ('seal_in_place_separate_tag', 'empty', None)}
+    for nm, (op, aad, fill) in spec.items():
+        b = fx.find(A_ + nm)
+        rep.analysed(b)
+        og = Origins(b, summaries=False)
+        P = Pos(b)
+        bad = []
+        ops = [(bb, t) for bb, t in b.calls() if callee_res(t).endswith('::' + op)]
+        if len(ops) != 1:
+            bad.append('%d calls of %s' % (len(ops), op))
+        else:
+            bb, t = ops[0]
+            k, a, buf = (og.of_operand(x, bb, 'term') for x in t['args'])
+            if not (term_has(k, lambda x: x[0] == 'call' and x[1].endswith('to_unbound_AES_GCM_key') and _uncap(x[2][0]) == ('param', 1)) and
+                    term_has(k, lambda x: x[0] == 'call' and x[1].endswith('TrivialNonceSequence::new') and _uncap(x[2][0]) == ('param', 2))):
+                bad.append('key / nonce are not made from the key and iv parameters')
+            if aad == 'from':
+                if not (a[0] == 'call' and a[1].endswith('::from') and _uncap(a[2][0]) == ('param', 3)):
+                    bad.append('the authenticated data is %s, not Aad::from(data)' % term_str(a)[:40])
+            elif not (a[0] == 'call' and a[1].endswith('::empty')):
+                bad.append('the authenticated data is %s, not Aad::empty()' % term_str(a)[:40])
+            if fill is not None:
+                # what was put into the in/out buffer before the call, in order
+                ext = [(eb, et) for eb, et in b.calls() if callee_res(et).endswith('extend_from_slice') and P.can_reach((eb, 'term'), (bb, 'term'))]
+                got = [term_str(_uncap(og.of_operand(et['args'][1], eb, 'term'))) for eb, et in sorted(ext)]
+                got = [g.replace('as_ref(', '').rstrip(')') if g.startswith('as_ref(') else g for g in got]
+                if got != fill or any(P.can_reach((ext[i + 1][0], 'term'), (ext[i][0], 'term')) for i in range(len(ext) - 1)):
+                    bad.append('the buffer is filled with %s, expected %s' % (got, fill))
+                if not term_has(buf, lambda x: x[0] == 'call' and x[1].endswith('with_capacity')):
+                    bad.append('the buffer handed to %s is not the one filled' % op)
+            elif nm == 'compute_mac':
+                if not (buf[0] == 'agg' and str(buf[1]).startswith('array') and not buf[2]):
+                    bad.append('compute_mac seals a non-empty buffer')
+            elif nm == 'encrypt':
+                if not term_has(buf, lambda x: x[0] == 'call' and x[1].endswith('::from') and _uncap(x[2][0]) == ('param', 3)) and _uncap(buf) != ('param', 3) and \
+                        not term_has(buf, lambda x: x == ('param', 3)):
+                    bad.append('encrypt does not seal the plaintext')
+            # Ok only behind the success of the operation
+            oks = [(sb, si) for sb, si, st in b.statements() if st['s'] == 'assign' and st['lhs']['l'] == 0 and not st['lhs'].get('p') and st['rv']['r'] == 'agg' and st['rv'].get('variant') == 'Ok']
+            succ = [(s_, t_) for s_, t_, cond, lab in switch_edges(b, fx, og) if lab in ('Continue', 'Ok') and cond[0] == 'discr' and term_has(cond, lambda x: x[0] == 'call' and len(x) > 3 and x[3] == bb)]
+            if not oks or not succ or not all(P.every_path_passes(None, o, via_edges=succ, from_entry=True) for o in oks):
+                bad.append('Ok is reachable without the success of %s' % op)
+            if nm == 'decrypt':
+                tr = [(tb, tt) for tb, tt in b.calls() if callee_res(tt).endswith('::truncate')]
+                if len(tr) != 1 or not term_has(og.of_operand(tr[0][1]['args'][1], tr[0][0], 'term'), lambda x: x[0] == 'call' and x[1].endswith('::len') and
+                                                term_has(x, lambda y: y[0] == 'call' and y[1].endswith('open_in_place'))):
+                    bad.append('the result is not cut to the length of the plaintext open_in_place returned')
+        rep.check(not bad, 'R16.13', 'aes_gcm_gmac::%s' % nm, 'key, nonce, AAD, buffer and success edge as specified',
+                  'aes_gcm_gmac::%s is not the AES-GCM/GMAC operation the decode functions rely on (%s)' % (nm, '; '.join(bad[:3])), b.where())
+    adv = [b for b in fx.bodies if b.name == 'advance' and 'TrivialNonceSequence' in (b.impl_self or b.key)]
+    ok = False
+    if len(adv) == 1:
+        og = Origins(adv[0], summaries=False)
+        ok = any(callee_res(t).endswith('assume_unique_for_key') and term_has(og.of_operand(t['args'][0], bb, 'term'), lambda x: x[0] == 'field' and x[1] == 'iv' and x[2] == ('param', 1))
+                 for bb, t in adv[0].calls())
+    rep.check(ok, 'R16.13', 'TrivialNonceSequence::advance', 'Nonce = self.iv', 'the nonce handed to ring is not the initialisation vector the sequence was made from', adv[0].where() if adv else '')
